@@ -302,6 +302,11 @@ def shape(form) -> dict:
         "default_lang_twice": default_lang_twice(form),
         "depth": max_depth(form),
         "ref_to_root": ref_to_root(form),
+        "table_list_unlisted": any("table-list" in str(v) for r in form.get("survey") or [] if t_begin(ctype(r)) for v in r.values())
+        and any_type(form, lambda t, r: t.startswith(("select", "rank")) and len(str(r.get("type")).split()) > 1
+                     and str(r.get("type")).split()[-1 if "other" not in t else 1] not in lists_choices),
+        "osm_unlisted": bool(form.get("osm")) and any_type(
+            form, lambda t, r: t.startswith("osm ") and t.split(" ", 1)[1] not in {c.get("list_name") for c in form.get("osm") or []}),
     }
 
 
@@ -327,6 +332,10 @@ MATCHERS = {
     and TYPE_CONFUSION.search(f.extra.get("msg", "")) is not None,
     "F22-settings-internal-slot": lambda f: f.kind == "internal-exception" and bool(sh(f).get("odd_settings"))
     and TYPE_CONFUSION.search(f.extra.get("msg", "")) is not None,
+    "F44-table-list-unlisted-select": lambda f: crash(f, {"KeyError"}, r"^xls2json\.py:workbook_to_json$")
+    and sh(f).get("table_list_unlisted"),
+    "F13-osm-unlisted": lambda f: crash(f, {"TypeError"}, r"^xls2json\.py:workbook_to_json$") and sh(f).get("osm_unlisted")
+    and "NoneType" in f.extra.get("msg", ""),
     "F30-deep-nesting": lambda f: f.kind == "internal-exception" and f.extra.get("exc") == "RecursionError"
     and sh(f).get("depth", 0) > 100,
     "F34-survey-internal-column": lambda f: f.kind == "internal-exception" and bool(sh(f).get("internal_cols"))
@@ -388,6 +397,12 @@ def directed_cases():
                                                {"type": "text", "name": "t", "label": "T"}, {"type": "end group"})})
     add("F33-search-on-ref-select", {"survey": rep_q + S({"type": "select_one ${q}", "name": "s", "label": "S", "appearance": "search('x')"})})
     add("F34-entities-no-dataset", {"survey": S(T), "entities": [{"label": "x"}]})
+    add("F44-table-list-unlisted-select", {"survey": S({"type": "begin group", "name": "g", "label": "G", "appearance": "table-list"},
+                                                       {"type": "select_one_from_file x.csv", "name": "s", "label": "S"}, {"type": "end group"})})
+    add("F44-table-list-unlisted-select", {"survey": rep_q + S({"type": "begin group", "name": "g", "label": "G", "appearance": "field-list table-list"},
+                                                               {"type": "select_one ${q}", "name": "s", "label": "S"}, {"type": "end group"})})
+    add("F13-osm-unlisted", {"survey": S({"type": "osm nolist", "name": "o", "label": "O"}),
+                             "osm": [{"list_name": "b", "name": "building", "label": "B"}]})
     add("F43-reference-to-root", {"survey": S({"type": "text", "name": "q", "label": "Q", "relevant": "${data} != ''"})})
     add("F43-reference-to-root", {"survey": S({"type": "begin group", "name": "g", "label": "G"},
                                               {"type": "text", "name": "q", "label": "Q ${data}"}, {"type": "end group"})})
@@ -516,6 +531,126 @@ def fuzz_case(ctx, case, correspond=False):
                                      extra={"mutation": "fuzz", "site": None}))
 
 
+# ------------------------------------------------------------------------------- stream R: the row loop's partial operations
+
+ALIAS_TOKENS = {k: v.split("::") for k, v in formobs.CANON.items()}
+ALIAS_TOKENS.update({"constraint_message": ["bind", "jr:constraintMsg"], "required_message": ["bind", "jr:requiredMsg"]})
+
+
+def typed_rows(form):
+    """the survey rows as header grouping leaves them: string cells, nested pair lists for grouped columns
+    (the harness's own reading of sheet_headers.process_header / process_row for conflict-free rows)"""
+    hs = impl.headers_of(form["survey"], form.get("survey_cols"))
+    toks = header_tokens(hs)
+    out = []
+    for row in form["survey"]:
+        cells = []
+
+        def put(cells, path, v):
+            for kv in cells:
+                if kv[0] == path[0]:
+                    if len(path) == 1 or not isinstance(kv[1], list):
+                        return False
+                    return put(kv[1], path[1:], v)
+            cells.append([path[0], v] if len(path) == 1 else [path[0], []])
+            return True if len(path) == 1 else put(cells[-1][1], path[1:], v)
+
+        ok = True
+        for h, v in row.items():
+            if v in (None, ""):
+                continue
+            t = list(toks[h])
+            first = snake(t[0])
+            t = (ALIAS_TOKENS.get(first) or [first]) + t[1:]
+            ok = put(cells, t, re.sub(r"( )+", " ", str(v).strip())) and ok
+        if not ok:
+            return None
+        out.append(cells)
+    return out
+
+
+ROW_KINDS = [
+    ("text", [{"type": "text", "name": "q", "label": "Q"}]),
+    ("note-unnamed", [{"type": "note", "label": "N"}]),
+    ("calculate", [{"type": "calculate", "name": "q", "calculation": "1 + 1"}]),
+    ("group", [{"type": "begin group", "name": "g", "label": "G"}, {"type": "text", "name": "q", "label": "Q"}, {"type": "end group"}]),
+    ("repeat", [{"type": "begin repeat", "name": "g", "label": "G", "repeat_count": "3"}, {"type": "text", "name": "q", "label": "Q"}, {"type": "end repeat"}]),
+    ("select", [{"type": "select_one l", "name": "q", "label": "Q"}]),
+    ("select-filter", [{"type": "select_multiple l", "name": "q", "label": "Q", "choice_filter": "name != 'x'"}]),
+    ("select-external", [{"type": "select_one_external e", "name": "q", "label": "Q", "choice_filter": "x=1"}]),
+    ("select-external-unfiltered", [{"type": "select_one_external e", "name": "q", "label": "Q"}]),
+    ("select-external-listed", [{"type": "select_one_external l", "name": "q", "label": "Q"}]),
+    ("select-file", [{"type": "select_one_from_file f.csv", "name": "q", "label": "Q"}]),
+    ("select-randomize", [{"type": "select_one l", "name": "q", "label": "Q", "parameters": "randomize=true"}]),
+    ("table-list", [{"type": "begin group", "name": "g", "label": "G", "appearance": "table-list"}, {"type": "select_one l", "name": "q", "label": "Q"},
+                    {"type": "select_one l", "name": "q2", "label": "Q"}, {"type": "end group"}]),
+    ("table-list-file", [{"type": "begin group", "name": "g", "label": "G", "appearance": "table-list"},
+                         {"type": "select_one_from_file f.csv", "name": "q", "label": "Q"}, {"type": "end group"}]),
+    ("table-list-after-text", [{"type": "begin group", "name": "g", "label": "G", "appearance": "field-list table-list"},
+                               {"type": "text", "name": "t", "label": "T"}, {"type": "select_one_from_file f.xml", "name": "q", "label": "Q"}, {"type": "end group"}]),
+    ("osm", [{"type": "osm b", "name": "q", "label": "Q"}]),
+    ("osm-unlisted", [{"type": "osm nolist", "name": "q", "label": "Q"}]),
+    ("osm-bare", [{"type": "osm", "name": "q", "label": "Q"}]),
+    ("image", [{"type": "image", "name": "q", "label": "Q"}]),
+    ("background-geopoint", [{"type": "text", "name": "w", "label": "W"}, {"type": "background-geopoint", "name": "q", "trigger": "${w}"}]),
+    ("stray-end", [{"type": "text", "name": "q", "label": "Q"}, {"type": "end group"}]),
+]
+ODD_COLS = [None, ("bind", "x"), ("control", "x"), ("parameters::x", "rows=3"), ("disabled::x", "yes"), ("default::x", "1"),
+            ("trigger::x", "${w}"), ("choice_filter::x", "a=1"), ("save_to::x", "p"), ("calculation::x", "1"),
+            ("repeat_count::x", "2"), ("appearance::x", "minimal"), ("label::en", "L"), ("bind::foo", "bar"),
+            ("hint", "H"), ("disabled", "yes"), ("disabled", "no"), ("name::x", "n"), ("relevant::x", "1")]
+
+
+def rowloop_case(ctx, case):
+    form = case["form"]
+    r = run_case(case)
+    check_no_internal(ctx, case, r)
+    rows = typed_rows(form)
+    if rows is None:
+        ctx.count("R:skipped-conflicting-headers")
+        return
+    kw = dict(rows=rows, choices=sorted({c["list_name"] for c in form.get("choices") or []}),
+              external=sorted({c["list_name"] for c in form.get("external_choices") or []}),
+              hasExternal=bool(form.get("external_choices")), hasEntities=bool(form.get("entities")))
+    if form.get("osm"):
+        kw["osm"] = sorted({c["list_name"] for c in form["osm"]})
+    m = ctx.driver.call("c17.rowloop", **kw)
+    in_loop = r["class"] == "internal" and any("workbook_to_json" in s or "dealias_types" in s for s in r.get("sites", []) + [r.get("site", "")])
+    ctx.count(f"R:model:{m['outcome']}/impl:{'rowloop-internal' if in_loop else r['class']}/guard:{m['guard']}")
+    if m["outcome"] == "internal":
+        if not (in_loop and r.get("exc") == m["exc"] and r.get("site") == m["site"]):
+            ctx.mismatch("row loop: model predicts an internal exception the implementation does not raise there", case,
+                         {k: r.get(k) for k in ("class", "exc", "site", "msg")}, m)
+        if m["guard"]:
+            ctx.mismatch("row loop: internal outcome although the guard holds (contradicts rowLoop_no_internal)", case, None, m)
+    elif in_loop:
+        ctx.mismatch("row loop: the implementation raises an internal exception in the row loop, the model does not", case,
+                     {k: r.get(k) for k in ("class", "exc", "site", "msg")}, m)
+
+
+def rowloop_forms(rng):
+    """row kinds x column shapes (+ a random second odd column now and then)"""
+    L = [{"list_name": "l", "name": "a", "label": "A"}]
+    for kind, rows in ROW_KINDS:
+        for odd in ODD_COLS:
+            for where in range(len(rows)):
+                f = {"survey": [dict(x) for x in rows], "choices": [dict(x) for x in L],
+                     "external_choices": [{"list_name": "e", "name": "a", "label": "A", "x": "1"}]}
+                if kind.startswith("osm"):
+                    f["osm"] = [{"list_name": "b", "name": "building", "label": "B"}]
+                if odd is not None:
+                    if odd[0] in f["survey"][where]:
+                        continue
+                    f["survey"][where][odd[0]] = odd[1]
+                    if odd[0].startswith("save_to"):
+                        f["entities"] = [{"dataset": "trees", "label": "'x'"}]
+                    if rng.random() < 0.15:
+                        o2 = ODD_COLS[rng.randrange(1, len(ODD_COLS))]
+                        if o2[0] not in f["survey"][where]:
+                            f["survey"][where][o2[0]] = o2[1]
+                yield kind, odd, f
+
+
 def base_form(rng, big):
     kw = dict(p_select=rng.choice([0.25, 0.4]), n=(3, 30 if big else 14), types=gen.SIMPLE_TYPES + ["calculate", "calculate", "range"],
               langs=rng.choice([[], [], ["en"], ["en", "fr"]]))
@@ -533,6 +668,12 @@ def explore(ctx, factor, bs):
             r = run_case(case)
             ctx.count(f"D:{fid}:{r['class']}")
             check_no_internal(ctx, case, r)
+            ctx.record(case, True)
+    # ---- R: partial operations of the row loop (model Pyxv.RowLoop, theorem rowLoop_no_internal)
+    if factor == 1:
+        for kind, odd, f in rowloop_forms(rng):
+            case = {"stream": "rowloop", "kind": kind, "odd": odd, "form": f, "via": "dict"}
+            rowloop_case(ctx, case)
             ctx.record(case, True)
     # ---- A: catalogue
     n_forms = ctx.pick(14, 110) * factor
@@ -594,6 +735,8 @@ def replay(ctx, payload, bs):
         catalogue_case(ctx, case)
     elif case.get("stream") == "fuzz":
         fuzz_case(ctx, case, correspond=case.get("kind") == "valid+")
+    elif case.get("stream") == "rowloop":
+        rowloop_case(ctx, case)
     else:
         check_no_internal(ctx, case, run_case(case))
     return (len(ctx.failures), len(ctx.mismatches)) == before
